@@ -126,8 +126,11 @@ class Scen:
                 self._serve()
                 if self.holding:
                     break
+        if case.get("sibling") and case.get("sib_first"):
+            # the sibling starts the DNS lookup, the main request joins it as a throttle waiter
+            self.tasks["sib"] = loop.create_task(self.request("sib", "/sib"))
         self.tasks["main"] = loop.create_task(self.request("main", "/main", timeout=self._timeout(), post=self.phase == "body-write"))
-        if case.get("sibling"):
+        if case.get("sibling") and not case.get("sib_first"):
             self.tasks["sib"] = loop.create_task(self.request("sib", "/sib"))
 
     def _timeout(self):
@@ -374,6 +377,11 @@ def cases(quick):
                     if phase not in COVERS[kind]:
                         c["faults"] = ["cancel"]
                     out.append(c)
+    # a shared in-flight DNS lookup whose answer arrives while the other request is cancelled or times out
+    for kind, T in (("total", 3.0), ("connect", 3.0)):
+        for first in (False, True):
+            out.append({"name": f"dns-share/{kind}={T:g}/{'sib' if first else 'main'}-owns-lookup", "phase": "before-status", "timeout": (kind, T),
+                        "sibling": True, "sib_first": first, "faults": ["cancel"], "no_stall": True})
     # no stall at all: timeouts must not fire on a healthy exchange
     for kind in ("total", "connect", "sock_connect", "sock_read"):
         out.append({"name": f"healthy/{kind}=3", "phase": "before-status", "timeout": (kind, 3.0), "sibling": True, "faults": [], "no_stall": True})
